@@ -536,7 +536,7 @@ func (g *gen) column(x0, x1, yTop, yBot float64, col int) {
 		case "list":
 			g.use(FeatList)
 			items := rapid.IntRange(2, 4).Draw(g.t, "listItems")
-			style := rapid.SampledFrom([]string{"•", "-", "*", "1.", "1)", "a.", "a)"}).Draw(g.t, "listStyle")
+			style := rapid.SampledFrom([]string{"•", "-", "*", "1.", "1)", "a.", "a)", "\uf0b7"}).Draw(g.t, "listStyle") // U+F0B7: the bullet of the Symbol font as Word-made files carry it (private use area)
 			sep := g.pct("bulletOwnFragment", 60)
 			for i := 0; i < items; i++ {
 				level := 0
